@@ -125,7 +125,13 @@ def run_case(case):
             pd = [dims[i] for i in perm]
             forms = [("names-varargs", lambda: a.transpose(*pd)), ("names-list", lambda: a.transpose(list(pd))),
                      ("positions", lambda: a.transpose(*perm)), ("positions-tuple", lambda: a.transpose(tuple(perm))),
-                     ("mixed", lambda: a.transpose(*[p if k % 2 else dims[p] for k, p in enumerate(perm)]))]
+                     ("mixed", lambda: a.transpose(*[p if k % 2 else dims[p] for k, p in enumerate(perm)])),
+                     ("negative-positions", lambda: a.transpose(*[p - nd for p in perm]))]
+            # positions written from the end where that makes the written sequence increasing, e.g. (-1, 0, 1) for the rotation (2, 0, 1)
+            for signs in itertools.product((0, 1), repeat=nd):
+                w = [p - nd if sg else p for p, sg in zip(perm, signs)]
+                if any(signs) and not all(signs) and all(w[i] < w[i + 1] for i in range(nd - 1)):
+                    forms.append(("mixed-sign-positions %s" % (w,), (lambda w=w: a.transpose(*w))))
             if nd == 0:
                 forms = [("noargs", lambda: a.transpose())]
             for fname, f in forms:
@@ -191,8 +197,8 @@ def run_case(case):
             res = lib(lambda: a.newaxis("n", pos=pos), what=what, sig={"op": "newaxis"})
             da_ = core.env.import_dimarray()
             check(isinstance(res, da_.DimArray) and list(res.dims) == pd, "dims", {"what": what, "got": core.brief(res), "expected": pd}, {"op": "newaxis"})
-            check(res.axes["n"].size == 1, "newaxis-not-singleton", {"what": what}, {"op": "newaxis"})
-            pl = labels[:p] + [[res.axes["n"].values[0]]] + labels[p:]
+            check(res.axes[p].size == 1, "newaxis-not-singleton", {"what": what}, {"op": "newaxis"})
+            pl = labels[:p] + [[res.axes[p].values[0]]] + labels[p:]
             expect(res, src, pd, pl, ["n"], what, {"op": "newaxis"})
             back = lib(lambda: res.squeeze("n"), what="newaxis->squeeze('n') " + what, sig={"op": "squeeze"})
             if nd:
